@@ -38,7 +38,9 @@ var stringAlphabet = []string{"", "a", "abc", "ABC", "a,b,,c", ",", "ß", "İ", 
 	"9223372036854775807", "9223372036854775808", "-9223372036854775808", "-9223372036854775809", "99999999999999999999", "1.5", "-1.5", "NaN", "Inf", "-inf", "1_000", ".5", "5.",
 	"true", "false", "True", "FALSE", "t", "F", "0", "yes", "T", "b", "e", "E", "f", "g", "G", "x", "X", "%", "\x00", "a\nb", "nonexistent-env-var-xyz", "PATH", "HOME"}
 
-var anyAlphabet = []any{nil, int64(3), "s", true, 1.5, []any{int64(1), "x"}, map[string]any{"k": int64(1)}, []any{}}
+// the three maps are objects of the same name with different content (type handlers must not confuse them)
+var anyAlphabet = []any{nil, int64(3), "s", true, 1.5, []any{int64(1), "x"}, map[string]any{"k": int64(1)}, []any{},
+	map[string]any{"k": "str"}, map[string]any{"j": 1.5, "k": []any{"a"}}}
 
 var listAlphabet = [][]any{{}, {int64(1)}, {int64(1), int64(2), int64(3)}, {"a", "b"}, {[]any{int64(1)}, []any{}}, {map[string]any{"a": int64(1)}, map[string]any{"a": int64(2)}}, {int64(1), "mixed", nil}}
 
